@@ -75,20 +75,6 @@ def _bound_views(db, f, cond):
         isb = is_call_to(suffix)
         if mentions(cond, isb):
             yield f, axis, isb
-    ix = oindex(db)
-    bds = ix.bindings(f)
-    plids = {}
-    for n, _ in walk(cond):
-        if n.get("k") == "Path" and n.get("res") == "local" and bds.get(n["lid"], (None,))[0] == "param":
-            plids[n["lid"]] = bds[n["lid"]][1]
-    for lid, idx in plids.items():
-        for cf, cn in ix.callsites.get(f.key, []):
-            args = call_args(cn)
-            if idx >= len(args):
-                continue
-            for axis, suffix in NUM.items():
-                if mentions(args[idx], is_call_to(suffix)):
-                    yield cf, axis, (lambda x, lid=lid: isinstance(x, dict) and x.get("k") == "Path" and x.get("res") == "local" and x.get("lid") == lid)
 
 
 @rule("C20.bounds", "every rejecting comparison against num_left()/num_right() rejects exactly x>=n (evaluated at "
@@ -97,6 +83,9 @@ def _bound_views(db, f, cond):
 def bounds(db, ctx):
     n_inst = 0
     for f in lib_fns(db):
+        # inlined view: a comparison moved into a private helper (bound passed as an argument) is seen in its caller, under the
+        # caller's name — the same instance key as when it is written inline
+        f = db.view(f)
         for ifn, cond, pol, ek, ps in guarded_exits(f.hir):
             for af, axis, isb in _bound_views(db, f, cond):
                 suffix = NUM[axis]
@@ -105,7 +94,8 @@ def bounds(db, ctx):
                 for p in (-1, 0, 1):
                     v = eval3(cond, bound_cmp_evaluator(isb, p))
                     vals.append(bool(v is not None and v == pol))
-                xs = render(x) if x else "?"
+                from ..inline import nf as _nf
+                xs = _nf(x) if x else "?"     # canonical, let-expanded: the key must not depend on a local's name
                 narrow = narrowing_casts(x, db, f) if x else []
                 signed_ok = True
                 xty = (x or {}).get("ty", "")
